@@ -65,6 +65,9 @@ pub struct WorldCfg {
     /// after the last operation: move part of the store into a sub-store, save, reload, save again (C05)
     #[serde(default)]
     pub substore_phase: bool,
+    /// C03: at the end of the run a variant of the store's own JSON is merged into a copy of it (c03merge.rs)
+    #[serde(default)]
+    pub merge_phase: bool,
     /// C12: every restart also changes the performance-only settings (a store written under one
     /// milestone interval / shrink-to-fit is read and used under another)
     #[serde(default)]
@@ -112,6 +115,7 @@ impl Default for WorldCfg {
             query_flags: Vec::new(),
             mutate_via_query: false,
             substore_phase: false,
+            merge_phase: false,
             restart_changes_knobs: false,
         }
     }
@@ -738,6 +742,19 @@ pub fn run_trace_raw(trace: &Trace) -> RunResult {
             };
         }
     }
+    if world.cfg.merge_phase && !trace.ops.is_empty() {
+        let last = trace.ops.len() - 1;
+        let phase_seed = crate::rng::label_hash("merge") ^ (world.cfg.milestone_interval as u64);
+        let v = crate::c03merge::merge_phase(&mut world, phase_seed, &mut stats);
+        if !v.is_empty() {
+            stats.final_fingerprint = world.model.fingerprint();
+            return RunResult {
+                violations: v,
+                step: Some(last),
+                stats,
+            };
+        }
+    }
     if world.cfg.substore_phase && !trace.ops.is_empty() {
         let last = trace.ops.len() - 1;
         let phase_seed = crate::rng::label_hash("substores") ^ (world.cfg.milestone_interval as u64);
@@ -820,6 +837,24 @@ pub fn run_generated(run_seed: u64, profile: &dyn Fn(&mut Rng, &mut GenCfg, &mut
             return (trace, gcfg, result);
         }
     }
+    if world.cfg.merge_phase && !ops.is_empty() {
+        let last = ops.len() - 1;
+        let phase_seed = crate::rng::label_hash("merge") ^ (world.cfg.milestone_interval as u64);
+        let v = crate::c03merge::merge_phase(&mut world, phase_seed, &mut stats);
+        if !v.is_empty() {
+            stats.final_fingerprint = world.model.fingerprint();
+            let trace = Trace { world: wcfg, ops };
+            return (
+                trace,
+                gcfg,
+                RunResult {
+                    violations: v,
+                    step: Some(last),
+                    stats,
+                },
+            );
+        }
+    }
     if world.cfg.substore_phase && !ops.is_empty() {
         let last = ops.len() - 1;
         let phase_seed = crate::rng::label_hash("substores") ^ (world.cfg.milestone_interval as u64);
@@ -889,7 +924,7 @@ pub fn attribute(trace: &Trace, result: RunResult) -> RunResult {
         return result;
     }
     // the sub-store phase at the end of a run is a round trip of its own
-    if result.violations.iter().all(|v| v.key.starts_with("substores.")) {
+    if result.violations.iter().all(|v| v.key.starts_with("substores.") || v.key.starts_with("merge:")) {
         return result;
     }
     let mut without = trace.clone();
